@@ -145,7 +145,8 @@ def to_coq(t):
 
 def num_of(x):
     f = float(x)
-    assert f == int(f), x
+    if f != f or f in (float('inf'), float('-inf')) or f != int(f):
+        raise ValueError(f'{x!r} is not one of the small integers the check supplies')     # (bytes read with the wrong element type)
     return int(f)
 
 
